@@ -399,9 +399,9 @@ func init() {
 		Assumptions: []string{"timestamps are placed hours from the no_gc_days boundary, so the verdict does not depend on the wall clock", "record size at most half the data-file limit"},
 		Plan: func(tier string, seed uint64) []Job {
 			var jobs []Job
-			n, stores, tuples, scheds := 10, 6, 30, 4
+			n, stores, tuples, scheds := 10, 6, 30, 6
 			if tier == "thorough" {
-				n, stores, tuples, scheds = 28, 70, 40, 70
+				n, stores, tuples, scheds = 28, 70, 40, 72
 			}
 			for i := 0; i < n; i++ {
 				jobs = append(jobs, Job{Variant: "plain", Mode: "db.c17", Args: js(map[string]interface{}{"Stores": stores, "Tuples": tuples, "Schedules": scheds})})
